@@ -55,7 +55,7 @@ def shards(tier):
 
 def floors(tier):
     f = {"cases": 15000, "cases_with_errors": 4000, "arrangements": 3000, "chains": 300, "inner_store_refs": 100,
-         "siblings_next_to_ref": 300, "hostile_name_resolutions": 2000, "recursive_cases": 1000, "recursive_with_asserting_siblings": 300, "near_identical_url_cases": 2000, "retrieval_uri_cases": 400, "id_collision_cases": 300, "reused_after_failed_retrieval": 500, "local_reference_arrangements_through_cli": 150,
+         "siblings_next_to_ref": 300, "hostile_name_resolutions": 2000, "recursive_cases": 1000, "recursive_with_asserting_siblings": 300, "near_identical_url_cases": 2000, "same_string_chain_cases": 800, "retrieval_uri_cases": 400, "id_collision_cases": 300, "reused_after_failed_retrieval": 500, "local_reference_arrangements_through_cli": 150,
          "recursion_depth3plus": 200, "model_crosschecks": 2000, "max_scope_depth": 3, "transform_selfcheck_ok": 3000, "foreign_id_keywords_on_path": 500, "relative_id_in_store_doc": 200, "reused_after_validate": 5000,
          "uri_calibration": 60}
     for m in ("noid", "rootid", "rootid#", "nested"):
@@ -360,6 +360,56 @@ def near_identical_urls(ctx):
                                     model=False)
 
 
+def same_string_chains(ctx):
+    """A chain of references that passes through several documents, every one of which spells ITS reference the same way
+    ("#/definitions/main" in each document; "next.json" relative to each document's own directory): the same text means
+    a different schema at every hop, and the chain ends at the last one's."""
+    leaves = [{"type": "integer"}, {"maxLength": 1}, {"enum": [1, "ab"]}, {"type": "array", "maxItems": 1}]
+    insts = [{"a": 1}, {"a": "s"}, {"a": "sss"}, {"a": [1, 2]}, {"a": "ab", "b": 2}, {"a": None}, {}, {"b": "ab"}]
+    for d in impl.DRAFTS:
+        idk = impl.IDKW[d]
+        hold = (lambda r: {"extends": [r]}) if d == 3 else (lambda r: {"allOf": [r]})
+        for leaf in leaves:
+            for hops in (1, 2, 3):
+                # (documents under the harness's private handler scheme cannot hold relative or fragment-only references:
+                #  urllib does not join under schemes it does not know - recorded finding F12 - so the chains live in the store)
+                for where in ("store",):
+                    for wrap_hops in (False, True):
+                        base = R.STORE_DIR
+                        variants = []
+                        # (1) "#/definitions/main" in every document
+                        urls = [base + "chain/main%d.json" % k for k in range(hops)]
+                        docs = {}
+                        for k, u in enumerate(urls):
+                            nxt = {"$ref": urls[k + 1]} if k + 1 < hops else leaf
+                            r = {"$ref": "#/definitions/main"}
+                            docs[u] = dict(hold(r) if wrap_hops else r, definitions={"main": nxt})
+                        S = {idk: R.ROOT_URL, "properties": {"a": {"$ref": "#/definitions/main"}, "b": leaf}, "definitions": {"main": {"$ref": urls[0]}}}
+                        variants.append(("same-pointer", S, docs))
+                        # (2) "next.json", relative to each document's own (declared) location
+                        docs2 = {}
+                        for k in range(hops):
+                            here = base + "chain/d%d/next.json" % k
+                            if k + 1 < hops:
+                                docs2[here] = dict(hold({"$ref": "next.json"}), **{idk: base + "chain/d%d/self.json" % (k + 1)})
+                            else:
+                                docs2[here] = leaf
+                        S2 = {idk: base + "chain/d0/root.json", "properties": {"a": hold({"$ref": "next.json"}) if wrap_hops else {"$ref": "next.json"}, "b": leaf}}
+                        variants.append(("same-relative-name", S2, docs2))
+                        for name, Sx, dx in variants:
+                            store = {u: v for u, v in dx.items() if u.startswith(R.STORE_DIR)}
+                            hdocs = {u: v for u, v in dx.items() if u.startswith(R.HANDLER_DIR)}
+                            try:
+                                S0 = R.inline(d, Sx, dict(dx))
+                            except R.InlineError:
+                                ctx.count("transform_selfcheck_failed")
+                                continue
+                            for inst in insts:
+                                ctx.count("same_string_chain_cases")
+                                compare(ctx, d, Sx, S0, store, hdocs, inst, {"probe": "same reference text at every hop", "variant": name, "hops": hops, "where": where},
+                                        model=False)
+
+
 def recursive_part(ctx, rng, n):
     for i in range(n):
         d = impl.DRAFTS[i % 4]
@@ -422,6 +472,7 @@ def run(ctx):
         known_probes(ctx)
     if ctx.shard == 1 % ctx.nshards:
         near_identical_urls(ctx)
+        same_string_chains(ctx)
     if ctx.shard == 2 % ctx.nshards:
         retrieval_uri_cases(ctx)
     if ctx.shard == 3 % ctx.nshards:
